@@ -130,6 +130,14 @@ func Line(cpu int, op int, m int, x int) {
 		cpuenv.MainMem[opAddr] = uint8(op)
 		c := cpuenv.Main
 		pre.ToMain(c)
+		// the same instruction was traced a moment ago with other operand bytes (a host patched the
+		// operand in between): what the tracer remembers of that must not show up in this line
+		a1, a2, a3 := bank|uint32(pre.PC+1), bank|uint32(pre.PC+2), bank|uint32(pre.PC+3)
+		vp.Assume(a1 != opAddr && a2 != opAddr && a3 != opAddr)
+		cpuenv.MainMem[a1], cpuenv.MainMem[a2], cpuenv.MainMem[a3] = vp.U8("stale1"), vp.U8("stale2"), vp.U8("stale3")
+		vp.Try(func() { c.DisassembleCurrentPC(nil) })
+		cpuenv.MainMem[a1], cpuenv.MainMem[a2], cpuenv.MainMem[a3] = w1, w2, w3
+		pre.ToMain(c)
 		failed = vp.Try(func() { out = c.DisassembleCurrentPC(nil) })
 		post = cpuenv.FromMain(c)
 		post.BusM = pre.BusM // cpu65c816 has no such field
